@@ -526,6 +526,18 @@ func c08Final(w *s2World, cache *otter.Cache[int, int]) error {
 			if cl.panicked != nil {
 				return fmt.Errorf("Refresh(%d) panicked: %v", cl.keys[0], firstLineOf(cl.panicked))
 			}
+			k := cl.keys[0]
+			for _, r := range cl.results {
+				if r.Key != k {
+					return fmt.Errorf("Refresh(%d) delivered a result for key %d", k, r.Key)
+				}
+				if r.Err == nil && !supplied[k][r.Value] {
+					return fmt.Errorf("Refresh(%d) delivered value %d with a nil error, but no loader invocation supplied that value for the key (a waiter must receive the result of the load it joined)", k, r.Value)
+				}
+			}
+			if cl.gotRes > 1 {
+				return fmt.Errorf("Refresh(%d) delivered %d results", k, cl.gotRes)
+			}
 		}
 	}
 	// (iv) no in-flight record is left behind
